@@ -3,6 +3,7 @@ package main
 // C03 — NETCONF requests on the wire are correctly framed and carry the caller's content.
 
 import (
+	"go/token"
 	"fmt"
 	"go/types"
 	"reflect"
@@ -35,6 +36,8 @@ func init() {
 				Edits: []Edit{{File: "driver/netconf/message.go", Old: "fmt.Sprintf(\"#%d\\n\", len(msg))", New: "fmt.Sprintf(\"#%d\\n\", bytes.Count(msg, nil)-1)"}}},
 			{ID: "C03-second-return-skipped", Desc: "second return skipped when self-closing tags are forced", Rule: "C03/write-sequence",
 				Edits: []Edit{{File: "driver/netconf/rpc.go", Old: "\tif d.SelectedVersion == V1Dot1 {\n\t\terr = d.Channel.WriteReturn()", New: "\tif d.SelectedVersion == V1Dot1 && !d.ForceSelfClosingTags {\n\t\terr = d.Channel.WriteReturn()"}}},
+			{ID: "C03-second-return-inverted", Desc: "second return written for 1.0 instead of 1.1", Rule: "C03/write-sequence",
+				Edits: []Edit{{File: "driver/netconf/rpc.go", Old: "\tif d.SelectedVersion == V1Dot1 {\n\t\terr = d.Channel.WriteReturn()", New: "\tif d.SelectedVersion != V1Dot1 {\n\t\terr = d.Channel.WriteReturn()"}}},
 			{ID: "C03-size-before-rewrite", Desc: "chunk size computed before the self-closing rewrite", Rule: "C03/framing",
 				Edits: []Edit{{File: "driver/netconf/message.go", Old: "\tif forceSelfClosingTags {\n\t\tmsg = ForceSelfClosingTags(msg)\n\t}\n", New: "\tsizeOf := msg\n\n\tif forceSelfClosingTags {\n\t\tmsg = ForceSelfClosingTags(msg)\n\t}\n"},
 					{File: "driver/netconf/message.go", Old: "len(msg))), msg...)", New: "len(sizeOf))), msg...)"}}},
@@ -227,8 +230,29 @@ func checkSendRPCSequence(c *Ctx, r *Report) {
 		return
 	}
 	sers := staticCallsTo(fn, ser)
+	// the two writes happen in sendRPC itself or together in one helper of this package that sendRPC calls once
+	holder := fn
+	var holderCall *ssa.Call
 	wars := staticCallsTo(fn, war)
 	wrets := staticCallsTo(fn, wret)
+	if len(wars) == 0 && len(wrets) == 0 {
+		for _, ci := range callInstrs(fn) {
+			h := ci.Common().StaticCallee()
+			call, isCall := ci.(*ssa.Call)
+			if h == nil || !isCall || h.Pkg != fn.Pkg || len(h.Blocks) == 0 {
+				continue
+			}
+			hw, hr := staticCallsTo(h, war), staticCallsTo(h, wret)
+			if len(hw) == 0 && len(hr) == 0 {
+				continue
+			}
+			if holderCall != nil {
+				wars, wrets = nil, nil // more than one writing helper: not the shape this rule decides
+				break
+			}
+			holder, holderCall, wars, wrets = h, call, hw, hr
+		}
+	}
 	if len(sers) != 1 || len(wars) != 1 || len(wrets) != 1 {
 		r.Bad(rule, "sendRPC shape", c.Pos(fn.Pos()), fmt.Sprintf("sendRPC must serialise once, write framed+return once and have one extra return (found %d/%d/%d)", len(sers), len(wars), len(wrets)))
 		return
@@ -239,7 +263,19 @@ func checkSendRPCSequence(c *Ctx, r *Report) {
 		return ok && f.Name() == name && base == serRes
 	}
 	w := wars[0].(*ssa.Call)
-	r.Check(fieldOfSer(w.Call.Args[1], "framedXML") && dominatesInstr(sers[0], w), rule, "framed bytes written", c.Pos(w.Pos()), "WriteAndReturn(serialized.framedXML)",
+	// the instruction of sendRPC at which the request is written
+	var wSite ssa.Instruction = w
+	framed := fieldOfSer(w.Call.Args[1], "framedXML")
+	if holderCall != nil {
+		wSite = holderCall
+		framed = false
+		for pi, p := range holder.Params {
+			if sameParam(w.Call.Args[1], p) && pi < len(holderCall.Call.Args) && fieldOfSer(holderCall.Call.Args[pi], "framedXML") {
+				framed = true
+			}
+		}
+	}
+	r.Check(framed && dominatesInstr(sers[0], wSite), rule, "framed bytes written", c.Pos(w.Pos()), "WriteAndReturn(serialized.framedXML)",
 		"what sendRPC writes is not the framed bytes of its own serialisation")
 	wr := wrets[0].(*ssa.Call)
 	var conds []string
@@ -249,7 +285,7 @@ func checkSendRPCSequence(c *Ctx, r *Report) {
 			continue
 		}
 		conds = append(conds, ec.Cond.String())
-		if bo, ok := ec.Cond.(*ssa.BinOp); ok && ec.Truth {
+		if bo, ok := ec.Cond.(*ssa.BinOp); ok && ((bo.Op == token.EQL && ec.Truth) || (bo.Op == token.NEQ && !ec.Truth)) {
 			if s, isS := constString(bo.Y); isS && s == "1.1" && isFieldLoadNamed(bo.X, "SelectedVersion") {
 				ver11 = true
 			}
@@ -257,6 +293,11 @@ func checkSendRPCSequence(c *Ctx, r *Report) {
 	}
 	r.Check(ver11 && len(conds) == 1 && dominatesInstr(w, wr), rule, "second return exactly under 1.1", c.Pos(wr.Pos()), "after the framed write, guarded by SelectedVersion == 1.1 only",
 		fmt.Sprintf("the extra return that supplies the LF starting the next chunk header is not written exactly when the selected version is 1.1 (guards: %v): consecutive 1.1 messages run together, or 1.0 sessions get a stray line", conds))
+	if holderCall != nil {
+		// the helper's failure ends the call
+		msg := stepErrReturned(c, fn, holderCall)
+		r.Check(msg == "", rule, "write helper's error returned", c.Pos(holderCall.Pos()), "", "sendRPC goes on waiting although writing the request failed: "+msg)
+	}
 	// nothing else writes; the waiting starts after the writes
 	var goInstr ssa.Instruction
 	for _, ci := range callInstrs(fn) {
@@ -264,7 +305,7 @@ func checkSendRPCSequence(c *Ctx, r *Report) {
 			goInstr = g
 		}
 	}
-	r.Check(goInstr != nil && dominatesInstr(w, goInstr), rule, "wait starts after the request was written", c.Pos(fn.Pos()), "", "sendRPC starts waiting for the reply before the request is on the wire")
+	r.Check(goInstr != nil && dominatesInstr(wSite, goInstr), rule, "wait starts after the request was written", c.Pos(fn.Pos()), "", "sendRPC starts waiting for the reply before the request is on the wire")
 	okResp := false
 	for _, ci := range staticCallsTo(fn, newResp) {
 		a := ci.Common().Args
